@@ -12,9 +12,10 @@ import (
 	"time"
 
 	"github.com/Dash-Industry-Forum/livesim2/pkg/chunkparser"
+	"verifharness/lib"
 )
 
-func init() { register("C18", runC18) }
+func main() { lib.Main("C18", runC18) }
 
 // schedReader is an io.Reader that follows a schedule of read sizes.
 type schedReader struct {
@@ -68,12 +69,12 @@ type c18cb struct {
 }
 
 type c18in struct {
-	Stream  []byte `json:"stream"`
-	Sched   []int  `json:"sched"`
-	EOFData bool   `json:"eof_with_data"`
-	Hard    bool   `json:"hard_error"`
-	CbFail  int    `json:"cb_fail"` // -1 none
-	BufSize int    `json:"initial_buf"`
+	Stream  []byte   `json:"stream"`
+	Sched   []int    `json:"sched"`
+	EOFData bool     `json:"eof_with_data"`
+	Hard    bool     `json:"hard_error"`
+	CbFail  int      `json:"cb_fail"` // -1 none
+	BufSize int      `json:"initial_buf"`
 	Boxes   []c18box `json:"boxes,omitempty"` // when the stream was built from well-formed boxes
 }
 
@@ -225,7 +226,7 @@ func compositions(n int, f func(parts []int)) {
 	}
 }
 
-func runC18(c *Ctx) error {
+func runC18(c *lib.Ctx) error {
 	if c.Replay != "" {
 		return replayC18(c)
 	}
@@ -510,7 +511,7 @@ func runC18(c *Ctx) error {
 			terms = append(terms, c18term(i, ins[i], obs[i]))
 		}
 		c.WriteCases(fmt.Sprintf("cases_C18_%d.v", s),
-			casesFile("From Verif Require Import GoSem ChunkParser CorrC18.", "c18case", "", terms, "model_view"))
+			lib.CasesFile("From Verif Require Import GoSem ChunkParser CorrC18.", "c18case", "", terms, "model_view"))
 	}
 	return nil
 }
@@ -524,9 +525,9 @@ func c18term(i int, in c18in, o c18obs) string {
 		if off >= 0 && off+len(cb.Data) <= len(in.Stream) && bytes.Equal(in.Stream[off:off+len(cb.Data)], cb.Data) {
 			d = fmt.Sprintf("ODSlice %d %d", off, len(cb.Data))
 		} else {
-			d = "ODRaw " + zbytes(cb.Data)
+			d = "ODRaw " + lib.Zbytes(cb.Data)
 		}
-		cbs = append(cbs, fmt.Sprintf("(%d, %s, %s)", cb.Start, cbool(cb.IsInit), d))
+		cbs = append(cbs, fmt.Sprintf("(%d, %s, %s)", cb.Start, lib.Cbool(cb.IsInit), d))
 	}
 	cbf := "None"
 	if in.CbFail >= 0 {
@@ -534,11 +535,11 @@ func c18term(i int, in c18in, o c18obs) string {
 	}
 	res := o.Res
 	return fmt.Sprintf("{| c_id := %d; c_stream := %s; c_sched := %s; c_eofdata := %s; c_hard := %s; c_cbfail := %s; o_cbs := [%s]; o_res := %d |}",
-		i, zbytes(in.Stream), zlistInt(in.Sched), cbool(in.EOFData), cbool(in.Hard), cbf, strings.Join(cbs, "; "), res)
+		i, lib.Zbytes(in.Stream), lib.ZlistInt(in.Sched), lib.Cbool(in.EOFData), lib.Cbool(in.Hard), cbf, strings.Join(cbs, "; "), res)
 }
 
-func replayC18(c *Ctx) error {
-	in, err := loadReplayInput[c18in](c.Replay)
+func replayC18(c *lib.Ctx) error {
+	in, err := lib.LoadReplayInput[c18in](c.Replay)
 	if err != nil {
 		return err
 	}
